@@ -41,12 +41,13 @@ impl Engine for RestoreEngine {
     fn plan(&self, property: &str, tier: Tier) -> Option<Plan> {
         match property {
             "C19" => Some(Plan {
+                // quick: one scenario per run; thorough: 10 scenarios per run (counter sim_scenarios)
                 runs: match tier {
-                    Tier::Quick => 4_000,
-                    Tier::Thorough => 400_000,
+                    Tier::Quick => 40_000,
+                    Tier::Thorough => 150_000,
                 },
                 level: "exploration",
-                rule: "one run = one seeded scenario: database shape (beacon 1-5, legacy or UTxO-HD ledger layout, network), 1-3 mirrors with their own compression, 1-2 download steps (range full/from/up-to/inner, with/without ancillary, allow_override, max_parallel_downloads 1-4, seeded order of download calls) and a trace of 0-6 concrete faults (location unavailable, extra archive entries of 20+ shapes, dropped entries, wrong compression, truncation, bit flip, empty file, 9 manifest alterations, pre-existing user files); ~20% of runs are fault-free. A run is non-trivial iff at least one download call reached the FileDownloader seam and, when the scenario has mirror faults, at least one faulty archive/location was actually requested by the client. distinct = distinct hash of (per step: range kind, ancillary flag, parallelism, result, sequence of (task kind, mirror, ok/err) calls) + fired fault kinds + classes of new paths.".into(),
+                rule: "one run = one seeded scenario: database shape (beacon 1-5, legacy or UTxO-HD ledger layout, network), 1-3 mirrors with their own compression, 1-2 download steps (range full/from/up-to/inner, with/without ancillary, allow_override, max_parallel_downloads 1-4, seeded order of download calls) and a trace of 0-6 concrete faults (location unavailable, extra archive entries of 20+ shapes, dropped entries, wrong compression, truncation, bit flip, empty file, 9 manifest alterations, pre-existing user files); ~20% of runs are fault-free. A run is non-trivial iff at least one download call reached the FileDownloader seam and, when the scenario has mirror faults, at least one faulty archive/location was actually requested by the client. In the thorough tier a run packs 10 scenarios (counter sim_scenarios; their individual fingerprints are in the distinct-states measure). distinct = distinct hash of (per step: range kind, ancillary flag, parallelism, result, sequence of (task kind, mirror, ok/err) calls) + fired fault kinds + classes of new paths.".into(),
                 assumptions: vec![
                     "two real unpack threads never write concurrently: the decorator serialises download calls and explores their order; an abort landing in the middle of another task's unpack is out of scope (DESIGN section 9)".into(),
                     "empty directories are recorded as observations, only files and symlinks are judged".into(),
@@ -82,23 +83,52 @@ impl Engine for RestoreEngine {
     }
 }
 
+static TMP_DIR: std::sync::OnceLock<std::path::PathBuf> = std::sync::OnceLock::new();
+
+extern "C" fn remove_tmp_dir_at_exit() {
+    if let Some(p) = TMP_DIR.get() {
+        let _ = std::fs::remove_dir_all(p);
+    }
+}
+
+/// Remove scratch directories of engine processes that no longer exist (killed workers, runs that
+/// ended in a harness error): `<label>-<pid>[-<n>]` under the scratch root.
+fn remove_stale_scratch() {
+    let root = sim_core::scratch::scratch_root();
+    let Ok(rd) = std::fs::read_dir(&root) else { return };
+    for e in rd.flatten() {
+        let name = e.file_name().to_string_lossy().to_string();
+        let mut parts = name.split('-');
+        let (Some(label), Some(pid)) = (parts.next(), parts.next()) else { continue };
+        if !matches!(label, "tmp" | "c19" | "c10") {
+            continue;
+        }
+        let Ok(pid) = pid.parse::<u32>() else { continue };
+        if label == "tmp" && parts.next().is_some() {
+            continue;
+        }
+        if !std::path::Path::new(&format!("/proc/{pid}")).exists() {
+            let _ = std::fs::remove_dir_all(e.path());
+        }
+    }
+}
+
 fn main() {
     // The client puts the downloaded digest file under std::env::temp_dir(): keep that inside the
-    // scratch area. Set before any thread exists.
+    // scratch area. Set before any thread exists; removed by an atexit handler because the batch
+    // runner leaves through process::exit.
     let tmp = sim_core::scratch::scratch_root().join(format!("tmp-{}", std::process::id()));
     let _ = std::fs::create_dir_all(&tmp);
     // SAFETY: single-threaded at this point
     unsafe { std::env::set_var("TMPDIR", &tmp) };
+    let _ = TMP_DIR.set(tmp);
+    // SAFETY: registering a plain function with the C runtime
+    unsafe { libc::atexit(remove_tmp_dir_at_exit) };
+    if std::env::args().nth(1).as_deref() != Some("worker") {
+        remove_stale_scratch();
+    }
     std::panic::set_hook(Box::new(|info| {
         eprintln!("HARNESS-ERROR: panic in harness or repo code: {info}");
     }));
-    let _cleanup = TmpCleanup(tmp);
     batch::main(&RestoreEngine)
-}
-
-struct TmpCleanup(std::path::PathBuf);
-impl Drop for TmpCleanup {
-    fn drop(&mut self) {
-        let _ = std::fs::remove_dir_all(&self.0);
-    }
 }
